@@ -121,7 +121,10 @@ func (in *Interp) vf(fn *ssa.Function, args []Value) Value {
 	case "vfI32":
 		return in.newInput(str(0), 32, "int")
 	case "vfI64":
-		return in.newInput(str(0), 64, "int")
+		n := in.inputName(str(0))
+		t := IntVarR(n, minInt64, maxInt64)
+		in.inputs = append(in.inputs, &Input{Name: n, T: t, Kind: "int"})
+		return t
 	case "vfBool":
 		return Eq(in.newInput(str(0), 8, "bool"), BV(8, 1))
 	case "vfBytes", "vfString":
